@@ -203,6 +203,7 @@ impl<'a> World<'a> {
             Op::Query { fs, fl } => self.op_query(fs, fl),
             Op::Delete { ds, name, fl } => self.op_delete(ds, &name, fl),
             Op::MkDir { ds, name, fl } => self.op_mkdir(ds, &name, fl),
+            Op::Churn { vs, n } => self.op_churn(vs, n),
             Op::HasOpen => {
                 let r = self.call(|fs| fs.has_open_handles());
                 let want = self.open_dir_count() + self.open_file_count() > 0;
